@@ -154,8 +154,11 @@ impl Expression {
                     as_target_is_type = matches!(y.comptime().value, ValueVariant::Type(_));
                     // A numeric cast (`x as 16`) carries the width as the
                     // literal's VALUE; a type cast carries it as the width.
-                    let cast_width = if as_target_is_type {
-                        yc.width
+                    let cast_width = if let ValueVariant::Type(t) = &y.comptime().value {
+                        // The target factor's own type is `TypeKind::Type`
+                        // (no width); the cast width is the width of the
+                        // type it denotes.
+                        t.total_width().unwrap_or(yc.width)
                     } else {
                         y.comptime()
                             .get_value()
